@@ -1,6 +1,7 @@
 import DaeVerif.C02.Model
 import DaeVerif.C12.Props
 /-! Helper lemmas for C02. -/
+set_option linter.unusedSimpArgs false
 namespace DaeVerif.C02
 open DaeVerif.RuleScan DaeVerif.C12 DaeVerif.C01
 
@@ -122,5 +123,730 @@ theorem skip_test (g b mu dns : Bool) :
 set_option maxRecDepth 100000 in
 theorem mask_test : ∀ ob, ob < 256 → (((ob &&& OB_Mask) != OB_Mask) = (ob != OB_Or && ob != OB_And)) := by
   decide
+
+
+/-! ## `route_finalize_match` -/
+
+
+theorem bpfBool_ne_zero (x : Bool) : (bpfBool x != 0) = x := by cases x <;> rfl
+
+theorem finalize_spec (k : KEntry) (hob : k.outbound < 256) (hmark : k.mark < 2 ^ 32)
+    (g b mu dns : Bool) (r : Int) (di db : Nat) (dc : Bool) :
+    finalizeMatch .little ⟨mkS g b mu dns, r, di, db, dc⟩ (encodeGo .little k) =
+      match tailOf k with
+      | .or => (⟨mkS g b mu dns, r, di, db, dc⟩, false)
+      | .and => (⟨mkS false (b || (g == k.not)) mu dns, r, di, db, dc⟩, false)
+      | .mustRules =>
+        if b || (g == k.not) then (⟨mkS false false mu dns, r, di, db, dc⟩, false)
+        else (⟨mkS false false true dns, r, di, db, dc⟩, false)
+      | .final _ =>
+        if b || (g == k.not) then (⟨mkS false false mu dns, r, di, db, dc⟩, false)
+        else (⟨mkS false false mu dns,
+          pack (if dns && !(mu || k.must) then OB_ControlPlane else k.outbound) k.mark (mu || k.must), di, db, dc⟩, true) := by
+  unfold finalizeMatch tailOf
+  simp only [msOutbound_enc _ _ hob, msNot_enc, msMust_enc, msMark_enc_little _ hmark, bpfBool_ne_zero,
+    mask_test _ hob]
+  by_cases h1 : k.outbound = OB_Or
+  · simp [h1, OB_Or, OB_And]
+  · by_cases h2 : k.outbound = OB_And
+    · simp [h2, OB_Or, OB_And, hasBit_good, or_bad, clr_good]
+      cases g <;> cases b <;> cases k.not <;> simp [or_bad, clr_good]
+    · by_cases h3 : k.outbound = OB_MustRules
+      · simp [h3, OB_Or, OB_And, OB_MustRules, hasBit_good, hasBit_bad, or_bad, clr_good]
+        cases g <;> cases b <;> cases k.not <;> simp [or_bad, clr_good, hasBit_bad, or_must, clr_bad]
+      · simp [h1, h2, h3, hasBit_good]
+        cases g <;> cases b <;> cases k.not <;>
+          simp [or_bad, clr_good, hasBit_bad, hasBit_must, hasBit_dns, clr_bad] <;>
+          cases mu <;> cases k.must <;> cases dns <;> simp
+
+/-! ## `route_eval_match` -/
+
+
+def KCond.WF (ntries : Nat) : KCond → Prop
+  | .ipSet i => i < ntries
+  | .srcIpSet i => i < ntries
+  | .macSet i => i < ntries
+  | .port lo hi => lo < 65536 ∧ hi < 65536
+  | .srcPort lo hi => lo < 65536 ∧ hi < 65536
+  | .l4Proto m => m < 256
+  | .ipVersion m => m < 256
+  | .processName bs => bs.length = 16
+  | .dscp v => v < 256
+  | _ => True
+
+/-- LAN packets carry no process name; a WAN packet whose process is unknown meets no rule for
+exactly that (empty) name — the honest form of `is_wan` vs `processName[0] != 0`. -/
+def PnameOK (pk : PktK) (c : KCond) : Prop :=
+  (pk.wanw % 256 = 0 → pk.pname.headD 0 = 0) ∧
+  (pk.wanw % 256 ≠ 0 → pk.pname.headD 0 = 0 → c ≠ .processName pk.pname)
+
+structure EntryOK (pk : PktK) (ntries : Nat) (k : KEntry) : Prop where
+  cond : k.cond.WF ntries
+  ob : k.outbound < 256
+  mark : k.mark < 2 ^ 32
+  pname : PnameOK pk k.cond
+
+structure Hyp (m : KMaps) (pk : PktK) (start : Nat) (tries : List (List Prefix)) (ubm : List Nat) : Prop where
+  lpm : ∀ idx (h : idx < tries.length), m.lpmAt (ringSlot start idx) = some (tries[idx].map cidrToKey)
+  triesWF : ∀ t ∈ tries, ∀ p ∈ t, p.WF
+  saddr : pk.saddr < 2 ^ 128
+  daddr : pk.daddr < 2 ^ 128
+  mac : pk.mac < 2 ^ 128
+  l4 : pk.l4w < 256
+  ipv : pk.ipw < 256
+  dscp : pk.dscpw < 256
+  dom : ∀ w, m.domainWord pk.daddr w = ubm.getD w 0
+
+def bitmapBitW (bm : List Nat) (w s : Nat) : Bool := decide (w < bm.length) && ((bm.getD w 0 >>> s) &&& 1 > 0)
+
+theorem set_good_if (P : Prop) [Decidable P] (mu dns : Bool) (r : Int) (di db : Nat) (dc : Bool) :
+    (if P then ({ (⟨mkS false false mu dns, r, di, db, dc⟩ : RCtx) with state := mkS false false mu dns ||| ST_GOOD })
+      else ⟨mkS false false mu dns, r, di, db, dc⟩) = ⟨mkS (decide P) false mu dns, r, di, db, dc⟩ := by
+  by_cases h : P <;> simp [h, or_good]
+
+theorem ringSlot_lt (s i : Nat) : ringSlot s i < 2 ^ 32 := by unfold ringSlot MaxMatchSetLen; omega
+
+theorem lpm_case (m : KMaps) (pk : PktK) (start : Nat) (tries : List (List Prefix)) (ubm : List Nat)
+    (H : Hyp m pk start tries ubm) (idx : Nat) (hidx : idx < tries.length) (probe : Nat) (hp : probe < 2 ^ 128)
+    (ms : List Nat) (hms : msIndex .little ms = ringSlot start idx)
+    (mu dns : Bool) (r : Int) (di db : Nat) (dc : Bool) :
+    matchLpm .little m ⟨mkS false false mu dns, r, di, db, dc⟩ ms probe =
+      (⟨mkS (trieMatch tries[idx] probe) false mu dns, r, di, db, dc⟩, false) := by
+  unfold matchLpm
+  rw [hms, H.lpm idx hidx]
+  simp only
+  rw [Props.kernel_userspace_same_set _ _ (H.triesWF _ (List.getElem_mem hidx)) hp]
+  rw [set_good_if]; simp
+
+theorem eval_spec (m : KMaps) (pk : PktK) (start : Nat) (tries : List (List Prefix)) (ubm : List Nat)
+    (H : Hyp m pk start tries ubm) (k : KEntry) (hk : EntryOK pk tries.length k) (i : Nat) (hi : i < MaxMatchSetLen)
+    (mu dns : Bool) (r : Int) (di db : Nat) (dc : Bool) (hc : dc = true → db = m.domainWord pk.daddr di) :
+    ∃ di' db' dc', (dc' = true → db' = m.domainWord pk.daddr di') ∧
+      evalMatch .little m pk ⟨mkS false false mu dns, r, di, db, dc⟩ (encodeGo .little (k.rewrite start)) i =
+        (⟨mkS (evalU tries ubm pk (i, k.cond)) false mu dns, r, di', db', dc'⟩, false) := by
+  obtain ⟨cond, nt, ob, must, mark⟩ := k
+  have hcw := hk.cond
+  cases cond with
+  | ipSet idx =>
+    refine ⟨di, db, dc, hc, ?_⟩
+    simp only [KCond.WF] at hcw
+    unfold evalMatch
+    simp only [msType_enc, KEntry.rewrite, KCond.rewrite, KCond.mtype, MT_Mac, MT_IpSet, MT_SourceIpSet]
+    simp only [show ((1:Nat) = 7 ∨ (1:Nat) = 1 ∨ (1:Nat) = 2) = True from by simp, if_true,
+      show ((1:Nat) = 7) = False from by simp, if_false]
+    rw [lpm_case m pk start tries ubm H idx hcw pk.daddr H.daddr _ (by
+      unfold msIndex; rw [rd32_head]; exact rd32_wr32le _ (ringSlot_lt _ _) _)]
+    simp [evalU, List.getElem?_eq_getElem hcw]
+  | srcIpSet idx =>
+    refine ⟨di, db, dc, hc, ?_⟩
+    simp only [KCond.WF] at hcw
+    unfold evalMatch
+    simp only [msType_enc, KEntry.rewrite, KCond.rewrite, KCond.mtype, MT_Mac, MT_IpSet, MT_SourceIpSet]
+    simp only [show ((2:Nat) = 7 ∨ (2:Nat) = 1 ∨ (2:Nat) = 2) = True from by simp, if_true,
+      show ((2:Nat) = 7) = False from by simp, show ((2:Nat) = 1) = False from by simp, if_false]
+    rw [lpm_case m pk start tries ubm H idx hcw pk.saddr H.saddr _ (by
+      unfold msIndex; rw [rd32_head]; exact rd32_wr32le _ (ringSlot_lt _ _) _)]
+    simp [evalU, List.getElem?_eq_getElem hcw]
+  | macSet idx =>
+    refine ⟨di, db, dc, hc, ?_⟩
+    simp only [KCond.WF] at hcw
+    unfold evalMatch
+    simp only [msType_enc, KEntry.rewrite, KCond.rewrite, KCond.mtype, MT_Mac, MT_IpSet, MT_SourceIpSet]
+    simp only [show ((7:Nat) = 7 ∨ (7:Nat) = 1 ∨ (7:Nat) = 2) = True from by simp, if_true]
+    rw [lpm_case m pk start tries ubm H idx hcw pk.mac H.mac _ (by
+      unfold msIndex; rw [rd32_head]; exact rd32_wr32le _ (ringSlot_lt _ _) _)]
+    simp [evalU, List.getElem?_eq_getElem hcw]
+  | port lo hi =>
+    refine ⟨di, db, dc, hc, ?_⟩
+    simp only [KCond.WF] at hcw
+    unfold evalMatch
+    simp only [msType_enc, KEntry.rewrite, KCond.rewrite, KCond.mtype, MT_Mac, MT_IpSet, MT_SourceIpSet, MT_Port, MT_SourcePort]
+    simp only [show ((3:Nat) = 7 ∨ (3:Nat) = 1 ∨ (3:Nat) = 2) = False from by simp, if_false,
+      show ((3:Nat) = 3 ∨ (3:Nat) = 4) = True from by simp, if_true]
+    have h1 : msPortStart .little (encodeGo .little ⟨.port lo hi, nt, ob, must, mark⟩) = lo := by
+      unfold msPortStart; rw [rd16_head _ _ _ _ (by decide)]
+      simp [rd16, KCond.value, wr16le, byteAt]; omega
+    have h2 : msPortEnd .little (encodeGo .little ⟨.port lo hi, nt, ob, must, mark⟩) = hi := by
+      unfold msPortEnd; rw [rd16_head _ _ _ _ (by decide)]
+      simp [rd16, KCond.value, wr16le, byteAt]; omega
+    rw [h1, h2, set_good_if]; simp [evalU]
+  | srcPort lo hi =>
+    refine ⟨di, db, dc, hc, ?_⟩
+    simp only [KCond.WF] at hcw
+    unfold evalMatch
+    simp only [msType_enc, KEntry.rewrite, KCond.rewrite, KCond.mtype, MT_Mac, MT_IpSet, MT_SourceIpSet, MT_Port, MT_SourcePort]
+    simp only [show ((4:Nat) = 7 ∨ (4:Nat) = 1 ∨ (4:Nat) = 2) = False from by simp, if_false,
+      show ((4:Nat) = 3 ∨ (4:Nat) = 4) = True from by simp, if_true, show ((4:Nat) = 3) = False from by simp]
+    have h1 : msPortStart .little (encodeGo .little ⟨.srcPort lo hi, nt, ob, must, mark⟩) = lo := by
+      unfold msPortStart; rw [rd16_head _ _ _ _ (by decide)]
+      simp [rd16, KCond.value, wr16le, byteAt]; omega
+    have h2 : msPortEnd .little (encodeGo .little ⟨.srcPort lo hi, nt, ob, must, mark⟩) = hi := by
+      unfold msPortEnd; rw [rd16_head _ _ _ _ (by decide)]
+      simp [rd16, KCond.value, wr16le, byteAt]; omega
+    rw [h1, h2, set_good_if]; simp [evalU]
+  | l4Proto mk =>
+    refine ⟨di, db, dc, hc, ?_⟩
+    simp only [KCond.WF] at hcw
+    unfold evalMatch
+    simp only [msType_enc, KEntry.rewrite, KCond.rewrite, KCond.mtype, MT_Mac, MT_IpSet, MT_SourceIpSet, MT_Port, MT_SourcePort,
+      MT_L4Proto, MT_IpVersion]
+    simp only [show ((5:Nat) = 7 ∨ (5:Nat) = 1 ∨ (5:Nat) = 2) = False from by simp, if_false,
+      show ((5:Nat) = 3 ∨ (5:Nat) = 4) = False from by simp, show ((5:Nat) = 5 ∨ (5:Nat) = 6) = True from by simp, if_true]
+    have h1 : msEnum32 .little (encodeGo .little ⟨.l4Proto mk, nt, ob, must, mark⟩) % 256 = mk := by
+      unfold msEnum32; rw [rd32_head]
+      simp [rd32, KCond.value, zeros, byteAt]; omega
+    rw [h1, Nat.mod_eq_of_lt H.l4, set_good_if]
+    simp [evalU, Nat.pos_iff_ne_zero]
+  | ipVersion mk =>
+    refine ⟨di, db, dc, hc, ?_⟩
+    simp only [KCond.WF] at hcw
+    unfold evalMatch
+    simp only [msType_enc, KEntry.rewrite, KCond.rewrite, KCond.mtype, MT_Mac, MT_IpSet, MT_SourceIpSet, MT_Port, MT_SourcePort,
+      MT_L4Proto, MT_IpVersion]
+    simp only [show ((6:Nat) = 7 ∨ (6:Nat) = 1 ∨ (6:Nat) = 2) = False from by simp, if_false,
+      show ((6:Nat) = 3 ∨ (6:Nat) = 4) = False from by simp, show ((6:Nat) = 5 ∨ (6:Nat) = 6) = True from by simp, if_true,
+      show ((6:Nat) = 5) = False from by simp]
+    have h1 : msEnum32 .little (encodeGo .little ⟨.ipVersion mk, nt, ob, must, mark⟩) % 256 = mk := by
+      unfold msEnum32; rw [rd32_head]
+      simp [rd32, KCond.value, zeros, byteAt]; omega
+    rw [h1, Nat.mod_eq_of_lt H.ipv, set_good_if]
+    simp [evalU, Nat.pos_iff_ne_zero]
+  | processName bs =>
+    refine ⟨di, db, dc, hc, ?_⟩
+    simp only [KCond.WF] at hcw
+    unfold evalMatch
+    simp only [msType_enc, KEntry.rewrite, KCond.rewrite, KCond.mtype, MT_Mac, MT_IpSet, MT_SourceIpSet, MT_Port, MT_SourcePort,
+      MT_L4Proto, MT_IpVersion, MT_DomainSet, MT_ProcessName]
+    simp only [show ((8:Nat) = 7 ∨ (8:Nat) = 1 ∨ (8:Nat) = 2) = False from by simp, if_false,
+      show ((8:Nat) = 3 ∨ (8:Nat) = 4) = False from by simp, show ((8:Nat) = 5 ∨ (8:Nat) = 6) = False from by simp,
+      show ((8:Nat) = 0) = False from by simp, if_true]
+    have h1 : msPname (encodeGo .little ⟨.processName bs, nt, ob, must, mark⟩) = bs := by
+      rw [msPname_enc]; simp only [KCond.value]; rw [pad16_of_length bs hcw]; exact range16_map_byteAt bs hcw
+    simp only [h1]
+    rw [set_good_if]
+    have hp := hk.pname
+    simp only [PnameOK] at hp
+    have key : (pk.wanw % 256 != 0 && bs == pk.pname) = (pk.pname.headD 0 != 0 && bs == pk.pname) := by
+      by_cases hw : pk.wanw % 256 = 0
+      · rw [hw, hp.1 hw]
+      · have e0 : (pk.wanw % 256 != 0) = true := by rw [bne_iff_ne]; exact hw
+        by_cases hh : pk.pname.headD 0 = 0
+        · have hne := hp.2 hw hh
+          have hb : (bs == pk.pname) = false := by
+            rw [beq_eq_false_iff_ne]; exact fun e => hne (by rw [e])
+          rw [hh, hb]; simp
+        · have e1 : (pk.pname.headD 0 != 0) = true := by rw [bne_iff_ne]; exact hh
+          rw [e0, e1]
+    simp only [evalU, Bool.decide_eq_true]
+    rw [key]
+  | dscp v =>
+    refine ⟨di, db, dc, hc, ?_⟩
+    simp only [KCond.WF] at hcw
+    unfold evalMatch
+    simp only [msType_enc, KEntry.rewrite, KCond.rewrite, KCond.mtype, MT_Mac, MT_IpSet, MT_SourceIpSet, MT_Port, MT_SourcePort,
+      MT_L4Proto, MT_IpVersion, MT_DomainSet, MT_ProcessName, MT_Dscp]
+    simp only [show ((9:Nat) = 7 ∨ (9:Nat) = 1 ∨ (9:Nat) = 2) = False from by simp, if_false,
+      show ((9:Nat) = 3 ∨ (9:Nat) = 4) = False from by simp, show ((9:Nat) = 5 ∨ (9:Nat) = 6) = False from by simp,
+      show ((9:Nat) = 0) = False from by simp, show ((9:Nat) = 8) = False from by simp, if_true]
+    have h1 : msDscp (encodeGo .little ⟨.dscp v, nt, ob, must, mark⟩) = v := by
+      unfold msDscp; rw [enc_head _ _ _ (by decide)]; simp [KCond.value, byteAt]; omega
+    simp only [h1, Nat.mod_eq_of_lt H.dscp]
+    rw [set_good_if]; simp only [evalU, Bool.decide_eq_true]
+  | fallback =>
+    refine ⟨di, db, dc, hc, ?_⟩
+    unfold evalMatch
+    simp only [msType_enc, KEntry.rewrite, KCond.rewrite, KCond.mtype, MT_Mac, MT_IpSet, MT_SourceIpSet, MT_Port, MT_SourcePort,
+      MT_L4Proto, MT_IpVersion, MT_DomainSet, MT_ProcessName, MT_Dscp, MT_Fallback]
+    simp only [show ((10:Nat) = 7 ∨ (10:Nat) = 1 ∨ (10:Nat) = 2) = False from by simp, if_false,
+      show ((10:Nat) = 3 ∨ (10:Nat) = 4) = False from by simp, show ((10:Nat) = 5 ∨ (10:Nat) = 6) = False from by simp,
+      show ((10:Nat) = 0) = False from by simp, show ((10:Nat) = 8) = False from by simp, show ((10:Nat) = 9) = False from by simp, if_true]
+    simp [evalU, or_good]
+  | domainSet =>
+    unfold evalMatch
+    simp only [msType_enc, KEntry.rewrite, KCond.rewrite, KCond.mtype, MT_Mac, MT_IpSet, MT_SourceIpSet, MT_Port, MT_SourcePort,
+      MT_L4Proto, MT_IpVersion, MT_DomainSet]
+    simp only [show ((0:Nat) = 7 ∨ (0:Nat) = 1 ∨ (0:Nat) = 2) = False from by simp, if_false,
+      show ((0:Nat) = 3 ∨ (0:Nat) = 4) = False from by simp, show ((0:Nat) = 5 ∨ (0:Nat) = 6) = False from by simp, if_true]
+    unfold matchDomainSet
+    have hw : ¬ (i / 32 ≥ MaxMatchSetLen / 32) := by unfold MaxMatchSetLen at *; omega
+    simp only [hw, if_false]
+    have hbit : ∀ w s, ((ubm.getD w 0 >>> s) &&& 1 != 0) = bitmapBitW ubm w s := by
+      intro w s
+      unfold bitmapBitW
+      by_cases hl : w < ubm.length
+      · rw [show decide (w < ubm.length) = true from decide_eq_true hl, Bool.true_and]
+        generalize ((ubm.getD w 0 >>> s) &&& 1) = x
+        by_cases hx : x = 0
+        · subst hx; rfl
+        · have : x > 0 := Nat.pos_of_ne_zero hx
+          simp [hx, this]
+      · have h0 : ubm.getD w 0 = 0 := by
+          rw [List.getD_eq_getElem?_getD, List.getElem?_eq_none (by omega : ubm.length ≤ w)]; rfl
+        rw [h0, show decide (w < ubm.length) = false from decide_eq_false hl]; simp
+    by_cases hcase : (!dc || di != i / 32) = true
+    · refine ⟨i / 32, m.domainWord pk.daddr (i / 32), true, fun _ => rfl, ?_⟩
+      simp only [hcase, if_true]
+      rw [H.dom, hbit]
+      rw [set_good_if]; simp [evalU, bitmapBit, bitmapBitW]
+    · refine ⟨di, db, dc, hc, ?_⟩
+      simp only [hcase]
+      have hdc : dc = true := by cases dc <;> simp_all
+      have hdi : di = i / 32 := by
+        cases dc <;> simp_all
+      simp only [Bool.false_eq_true, if_false]
+      rw [hc hdc, hdi, H.dom, hbit]
+      rw [set_good_if]; simp [evalU, bitmapBit, bitmapBitW]
+
+
+/-! ## `route_loop_cb` and the loop -/
+
+
+theorem rewrite_tail (s : Nat) (k : KEntry) : tailOf (k.rewrite s) = tailOf k := rfl
+
+theorem routingAt_some (m : KMaps) (i : Nat) (x : List Nat) (h : m.routingAt i = some x) : i < MaxMatchSetLen := by
+  unfold KMaps.routingAt at h; by_cases hi : i < MaxMatchSetLen
+  · exact hi
+  · simp [hi] at h
+
+theorem loopCb_spec (m : KMaps) (pk : PktK) (start : Nat) (tries : List (List Prefix)) (ubm : List Nat)
+    (H : Hyp m pk start tries ubm) (k : KEntry) (hk : EntryOK pk tries.length k) (i : Nat)
+    (hr : m.routingAt i = some (encodeGo .little (k.rewrite start)))
+    (g b mu dns : Bool) (r : Int) (di db : Nat) (dc : Bool) (hc : dc = true → db = m.domainWord pk.daddr di) :
+    ∃ di' db' dc', (dc' = true → db' = m.domainWord pk.daddr di') ∧
+      loopCb .little m pk ⟨mkS g b mu dns, r, di, db, dc⟩ i =
+        match tailOf k with
+        | .or => (⟨mkS (if b || g then g else evalU tries ubm pk (i, k.cond)) b mu dns, r, di', db', dc'⟩, false)
+        | .and => (⟨mkS false (b || ((if b || g then g else evalU tries ubm pk (i, k.cond)) == k.not)) mu dns, r, di', db', dc'⟩, false)
+        | .mustRules =>
+          if b || ((if b || g then g else evalU tries ubm pk (i, k.cond)) == k.not) then (⟨mkS false false mu dns, r, di', db', dc'⟩, false)
+          else (⟨mkS false false true dns, r, di', db', dc'⟩, false)
+        | .final _ =>
+          if b || ((if b || g then g else evalU tries ubm pk (i, k.cond)) == k.not) then (⟨mkS false false mu dns, r, di', db', dc'⟩, false)
+          else (⟨mkS false false mu dns,
+            pack (if dns && !(mu || k.must) then OB_ControlPlane else k.outbound) k.mark (mu || k.must), di', db', dc'⟩, true) := by
+  have hi := routingAt_some m i _ hr
+  have hob : (k.rewrite start).outbound < 256 := hk.ob
+  have hmk : (k.rewrite start).mark < 2 ^ 32 := hk.mark
+  unfold loopCb
+  simp only [show ¬ (i ≥ MaxMatchSetLen) from by omega, if_false, hr, skip_test]
+  by_cases hbg : (b || g) = true
+  · refine ⟨di, db, dc, hc, ?_⟩
+    simp only [hbg, Bool.not_true, Bool.false_eq_true, if_false, if_true]
+    rw [finalize_spec _ hob hmk, rewrite_tail]
+    rfl
+  · have hbg' : (b || g) = false := by simpa using hbg
+    have hb : b = false := by cases b <;> simp_all
+    have hg : g = false := by cases g <;> simp_all
+    subst hb; subst hg
+    obtain ⟨di', db', dc', hc', he⟩ := eval_spec m pk start tries ubm H k hk i hi mu dns r di db dc hc
+    refine ⟨di', db', dc', hc', ?_⟩
+    simp only [Bool.or_self, Bool.not_false, if_true, he, Bool.false_eq_true, if_false]
+    rw [finalize_spec _ hob hmk, rewrite_tail]
+    rfl
+
+theorem tailOf_final (k : KEntry) (o : Out) (h : tailOf k = .final o) : o = ⟨k.outbound, k.mark, k.must⟩ := by
+  unfold tailOf at h
+  split at h
+  · cases h
+  · split at h
+    · cases h
+    · split at h
+      · cases h
+      · cases h; rfl
+
+theorem loop_spec (m : KMaps) (pk : PktK) (start : Nat) (tries : List (List Prefix)) (ubm : List Nat)
+    (H : Hyp m pk start tries ubm) (dns : Bool) :
+    ∀ (ks : List KEntry) (i : Nat) (g b mu : Bool) (di db : Nat) (dc : Bool),
+      (∀ j (h : j < ks.length), m.routingAt (i + j) = some (encodeGo .little ((ks[j]).rewrite start))) →
+      (∀ k ∈ ks, EntryOK pk tries.length k) →
+      (dc = true → db = m.domainWord pk.daddr di) →
+      (bpfLoop (loopCb .little m pk) ks.length i ⟨mkS g b mu dns, -ENOEXEC, di, db, dc⟩).result =
+        match scanAux (evalU tries ubm pk) (toEntriesFrom i ks) g b mu with
+        | some (o, mu') => pack (if dns && !(o.must || mu') then OB_ControlPlane else o.outbound) o.mark (o.must || mu')
+        | none => -ENOEXEC := by
+  intro ks
+  induction ks with
+  | nil => intro i g b mu di db dc _ _ _; rfl
+  | cons k ks ih =>
+    intro i g b mu di db dc hr hk hc
+    have hr0 : m.routingAt i = some (encodeGo .little (k.rewrite start)) := by
+      have := hr 0 (Nat.zero_lt_succ _); simpa using this
+    have hrs : ∀ j (h : j < ks.length), m.routingAt (i + 1 + j) = some (encodeGo .little ((ks[j]).rewrite start)) := by
+      intro j hj
+      have := hr (j + 1) (by simp; omega)
+      simpa [Nat.add_assoc, Nat.add_comm 1 j] using this
+    have hk0 := hk k (List.mem_cons_self)
+    have hks : ∀ k' ∈ ks, EntryOK pk tries.length k' := fun k' h => hk k' (List.mem_cons_of_mem _ h)
+    obtain ⟨di', db', dc', hc', he⟩ := loopCb_spec m pk start tries ubm H k hk0 i hr0 g b mu dns (-ENOEXEC) di db dc hc
+    simp only [List.length_cons, bpfLoop, he, toEntriesFrom, scanAux]
+    generalize (if (b || g) = true then g else evalU tries ubm pk (i, k.cond)) = g'
+    cases ht : tailOf k with
+    | or => simp only [Bool.false_eq_true, if_false]; exact ih (i + 1) _ _ _ _ _ _ hrs hks hc'
+    | and => simp only [Bool.false_eq_true, if_false]; exact ih (i + 1) _ _ _ _ _ _ hrs hks hc'
+    | mustRules =>
+      by_cases hcond : (b || (g' == k.not)) = true
+      · simp only [hcond, if_true, Bool.false_eq_true, if_false]; exact ih (i + 1) _ _ _ _ _ _ hrs hks hc'
+      · simp only [hcond, if_false, Bool.false_eq_true]; exact ih (i + 1) _ _ _ _ _ _ hrs hks hc'
+    | final o =>
+      have ho := tailOf_final k o ht
+      by_cases hcond : (b || (g' == k.not)) = true
+      · simp only [hcond, if_true, Bool.false_eq_true, if_false]; exact ih (i + 1) _ _ _ _ _ _ hrs hks hc'
+      · subst ho
+        simp only [hcond, Bool.false_eq_true, if_false, if_true, Bool.or_comm mu k.must]
+
+
+/-! ## `route()` on an installed generation -/
+
+
+/-- What one completed `buildRoutingKernspace` leaves in the maps (whatever they held before). -/
+structure Installed (m : KMaps) (start : Nat) (kp : List KEntry) (tries : List (List Prefix)) : Prop where
+  len : m.activeLen = kp.length
+  bound : kp.length ≤ MaxMatchSetLen
+  rules : ∀ i (h : i < kp.length), m.routing[i]? = some (encodeGo .little (kp[i].rewrite start))
+  lpm : ∀ idx (h : idx < tries.length), m.lpmAt (ringSlot start idx) = some (tries[idx].map cidrToKey)
+
+/-- Ranges of the packet fields (`route()`'s callers pass u8-sized words, 16-byte arrays). -/
+structure PktOK (pk : PktK) : Prop where
+  saddr : pk.saddr < 2 ^ 128
+  daddr : pk.daddr < 2 ^ 128
+  mac : pk.mac < 2 ^ 128
+  l4 : pk.l4w < 256
+  ipv : pk.ipw < 256
+  dscp : pk.dscpw < 256
+
+theorem c0_eq (pk : PktK) : (if isDnsQuery pk then ST_DNS else 0) = mkS false false false (isDnsQuery pk) := by
+  cases isDnsQuery pk <;> rfl
+
+theorem pack_nonneg (a b : Nat) (c : Bool) : pack a b c ≥ 0 := by
+  unfold pack; exact Int.natCast_nonneg _
+
+theorem routeK_main (m : KMaps) (pk : PktK) (start : Nat) (kp : List KEntry) (tries : List (List Prefix))
+    (ubm : List Nat) (hI : Installed m start kp tries) (hT : ∀ t ∈ tries, ∀ p ∈ t, p.WF) (hP : PktOK pk)
+    (hD : ∀ w, m.domainWord pk.daddr w = ubm.getD w 0) (hK : ∀ k ∈ kp, EntryOK pk tries.length k) :
+    routeK .little m pk = expectedK pk (matchU kp tries ubm pk) := by
+  have H : Hyp m pk start tries ubm := ⟨hI.lpm, hT, hP.saddr, hP.daddr, hP.mac, hP.l4, hP.ipv, hP.dscp, hD⟩
+  have hr : ∀ j (h : j < kp.length), m.routingAt (0 + j) = some (encodeGo .little ((kp[j]).rewrite start)) := by
+    intro j hj
+    have hb := hI.bound
+    unfold KMaps.routingAt
+    rw [Nat.zero_add, if_pos (by omega)]
+    have := hI.rules j hj
+    simp [List.getD_eq_getElem?_getD, this]
+  have hl := loop_spec m pk start tries ubm H (isDnsQuery pk) kp 0 false false false 0 0 false hr hK (by simp)
+  unfold routeK
+  simp only [hI.len, hI.bound, if_true, c0_eq]
+  unfold matchU
+  cases hs : scanAux (evalU tries ubm pk) (toEntriesFrom 0 kp) false false false with
+  | none =>
+    rw [hs] at hl
+    simp only at hl
+    simp only [hl, Option.map_none, expectedK]
+    simp [ENOEXEC, EPERM]
+  | some x =>
+    obtain ⟨o, mu'⟩ := x
+    rw [hs] at hl
+    simp only at hl
+    simp only [hl, Option.map_some, expectedK, dnsAdjust]
+    rw [if_pos (pack_nonneg _ _ _)]
+    cases hd : (isDnsQuery pk && !(o.must || mu')) <;> simp [hd]
+
+
+/-! ## one reload on top of any previous map contents -/
+
+
+theorem lookup_append_of_mem {β : Type} (l old : List (Nat × β)) (k : Nat) (v : β)
+    (hmem : (k, v) ∈ l) (huniq : ∀ v', (k, v') ∈ l → v' = v) : (l ++ old).lookup k = some v := by
+  induction l with
+  | nil => cases hmem
+  | cons a l ih =>
+    obtain ⟨k', v'⟩ := a
+    by_cases hk : k = k'
+    · subst hk
+      have := huniq v' List.mem_cons_self
+      simp [List.lookup_cons, this]
+    · have hne : (k == k') = false := by simpa using hk
+      simp only [List.cons_append, List.lookup_cons, hne]
+      apply ih
+      · cases hmem with
+        | head => exact absurd rfl hk
+        | tail _ h => exact h
+      · intro v'' h; exact huniq v'' (List.mem_cons_of_mem _ h)
+
+theorem mem_lpmEntries (start : Nat) : ∀ (ts : List (List Prefix)) (i0 s : Nat) (ks : List LpmKey),
+    (s, ks) ∈ lpmEntries start i0 ts ↔ ∃ j, ∃ h : j < ts.length, s = ringSlot start (i0 + j) ∧ ks = ts[j].map cidrToKey := by
+  intro ts
+  induction ts with
+  | nil => intro i0 s ks; simp [lpmEntries]
+  | cons t ts ih =>
+    intro i0 s ks
+    simp only [lpmEntries, List.mem_cons, Prod.mk.injEq, ih]
+    constructor
+    · rintro (⟨rfl, rfl⟩ | ⟨j, hj, rfl, rfl⟩)
+      · exact ⟨0, by simp, by simp, by simp⟩
+      · exact ⟨j + 1, by simp; omega, by simp [Nat.add_assoc, Nat.add_comm 1 j], by simp⟩
+    · rintro ⟨j, hj, rfl, rfl⟩
+      cases j with
+      | zero => left; simp
+      | succ j =>
+        right
+        exact ⟨j, by simpa using hj, by simp [Nat.add_assoc, Nat.add_comm 1 j], by simp⟩
+
+theorem ringSlot_inj (start a b : Nat) (ha : a < MaxMatchSetLen) (hb : b < MaxMatchSetLen)
+    (h : ringSlot start a = ringSlot start b) : a = b := by
+  unfold ringSlot MaxMatchSetLen at *; omega
+
+theorem installGen_installed (start : Nat) (kp : List KEntry) (tries : List (List Prefix)) (m0 : KMaps)
+    (hk : kp.length ≤ MaxMatchSetLen) (ht : tries.length ≤ MaxMatchSetLen) :
+    Installed (installGen .little start kp tries m0) start kp tries := by
+  refine ⟨rfl, hk, ?_, ?_⟩
+  · intro i hi
+    simp only [installGen, overwritePrefix]
+    rw [List.getElem?_append_left (by simpa using hi)]
+    simp [hi]
+  · intro idx hidx
+    simp only [installGen, KMaps.lpmAt]
+    rw [if_pos (by unfold ringSlot MaxLpmNum MaxMatchSetLen; omega)]
+    apply lookup_append_of_mem
+    · rw [List.mem_reverse, mem_lpmEntries]
+      exact ⟨idx, hidx, by simp, rfl⟩
+    · intro v' hv'
+      rw [List.mem_reverse, mem_lpmEntries] at hv'
+      obtain ⟨j, hj, hs, rfl⟩ := hv'
+      simp only [Nat.zero_add] at hs
+      have := ringSlot_inj start idx j (by omega) (by omega) hs
+      subst this; rfl
+
+
+/-! ## the typed array the builder emits for C01's compiled program -/
+
+
+/-- a final outbound is not one of the three sentinels the loop gives a logical role to -/
+def outOK (e : Entry MCond Out) : Bool :=
+  match e.tail with
+  | .final o => o.outbound != OB_Or && o.outbound != OB_And && o.outbound != OB_MustRules
+  | _ => true
+abbrev OutOK (e : Entry MCond Out) : Prop := outOK e = true
+
+/-- position bookkeeping of the domain bitmap: bit `pos` of `MatchDomainBitmap(domain)` is the truth
+of the key group that the match set at position `pos` stands for (C01 `Position`, C11). -/
+def domOK (ubm : List Nat) (p : Pkt) : Nat → List (Entry MCond Out) → Bool
+  | _, [] => true
+  | pos, e :: es =>
+    (match e.cond with
+     | .domainSet j => bitmapBit ubm pos == p.dom.getD j false
+     | _ => true) && domOK ubm p (pos + 1) es
+abbrev DomOK (ubm : List Nat) (p : Pkt) (pos : Nat) (es : List (Entry MCond Out)) : Prop := domOK ubm p pos es = true
+
+theorem scan_head_congr {κ κ' : Type} (ev : κ → Bool) (ev' : κ' → Bool) (c : κ) (c' : κ') (neg : Bool)
+    (tail : Tail Out) (rest : List (Entry κ Out)) (rest' : List (Entry κ' Out)) (h1 : ev c = ev' c')
+    (h2 : ∀ g b mu, scanAux ev rest g b mu = scanAux ev' rest' g b mu) (g b mu : Bool) :
+    scanAux ev (⟨c, neg, tail⟩ :: rest) g b mu = scanAux ev' (⟨c', neg, tail⟩ :: rest') g b mu := by
+  unfold scanAux
+  simp only [h1]
+  cases tail <;> simp only [h2]
+
+theorem tailOf_mkK (e : Entry MCond Out) (c : KCond) (h : OutOK e) : tailOf (mkK e c) = e.tail := by
+  unfold tailOf mkK obOf
+  unfold OutOK outOK at h
+  cases ht : e.tail with
+  | or => simp [OB_Or]
+  | and => simp [OB_Or, OB_And]
+  | mustRules => simp [OB_Or, OB_And, OB_MustRules]
+  | final o =>
+    rw [ht] at h
+    simp only [Bool.and_eq_true, bne_iff_ne, ne_eq] at h
+    obtain ⟨⟨h1, h2⟩, h3⟩ := h
+    simp [h1, h2, h3]
+
+theorem kcond_some (p : Pkt) (wan : Bool) (ubm : List Nat) (next pos : Nat) (mc : MCond) (c : KCond) (ps : List Prefix)
+    (tries : List (List Prefix)) (h : kcondOf next mc = (c, some ps)) (ht : tries[next]? = some ps) :
+    evalU tries ubm (toK p wan) (pos, c) = evalM p mc := by
+  cases mc <;> simp [kcondOf] at h <;> obtain ⟨rfl, rfl⟩ := h <;> simp [evalU, evalM, ht, toK]
+
+theorem kcond_none (p : Pkt) (wan : Bool) (ubm : List Nat) (next pos : Nat) (mc : MCond) (c : KCond)
+    (tries : List (List Prefix)) (h : kcondOf next mc = (c, none))
+    (hd : ∀ j, mc = .domainSet j → bitmapBit ubm pos = p.dom.getD j false) :
+    evalU tries ubm (toK p wan) (pos, c) = evalM p mc := by
+  cases mc <;> simp [kcondOf] at h <;> subst h <;> simp [evalU, evalM, toK]
+  case domainSet j => exact hd j rfl
+
+theorem assign_scan (p : Pkt) (wan : Bool) (ubm : List Nat) :
+    ∀ (es : List (Entry MCond Out)) (next pos : Nat) (pre : List (List Prefix)) (g b mu : Bool),
+      pre.length = next → (∀ e ∈ es, OutOK e) → DomOK ubm p pos es →
+      scanAux (evalU (pre ++ (assignFrom next es).2) ubm (toK p wan)) (toEntriesFrom pos (assignFrom next es).1) g b mu =
+        scanAux (evalM p) es g b mu := by
+  intro es
+  induction es with
+  | nil => intro next pos pre g b mu _ _ _; rfl
+  | cons e es ih =>
+    intro next pos pre g b mu hpre hout hdom
+    have he := hout e List.mem_cons_self
+    have hes : ∀ e' ∈ es, OutOK e' := fun e' h => hout e' (List.mem_cons_of_mem _ h)
+    have hdom' : ((match e.cond with
+        | .domainSet j => bitmapBit ubm pos == p.dom.getD j false
+        | _ => true) && domOK ubm p (pos + 1) es) = true := hdom
+    rw [Bool.and_eq_true] at hdom'
+    obtain ⟨hd0', hds⟩ := hdom'
+    have hd0 : ∀ j, e.cond = .domainSet j → bitmapBit ubm pos = p.dom.getD j false := by
+      intro j hj; rw [hj] at hd0'; simpa using hd0'
+    unfold assignFrom
+    cases hk : kcondOf next e.cond with
+    | mk c o =>
+      cases o with
+      | some ps =>
+        simp only [toEntriesFrom, tailOf_mkK e c he]
+        have hassoc : pre ++ ps :: (assignFrom (next + 1) es).2 = (pre ++ [ps]) ++ (assignFrom (next + 1) es).2 := by simp
+        obtain ⟨ec, en, et⟩ := e
+        apply scan_head_congr
+        · apply kcond_some p wan ubm next pos ec c ps _ hk
+          rw [List.getElem?_append_right (by omega), hpre]; simp
+        · intro g b mu
+          rw [hassoc]
+          exact ih (next + 1) (pos + 1) (pre ++ [ps]) g b mu (by simp [hpre]) hes hds
+      | none =>
+        simp only [toEntriesFrom, tailOf_mkK e c he]
+        obtain ⟨ec, en, et⟩ := e
+        apply scan_head_congr
+        · exact kcond_none p wan ubm next pos ec c _ hk hd0
+        · intro g b mu
+          exact ih next (pos + 1) pre g b mu hpre hes hds
+
+
+/-! ## the packed result -/
+
+
+theorem pack_arith (ob mark : Nat) (must : Bool) (h1 : ob < 256) (h2 : mark < 2 ^ 32) :
+    (ob ||| (mark <<< 8) ||| (bpfBool must <<< 40)) = bpfBool must * 2 ^ 40 + mark * 256 + ob := by
+  have e1 : ob ||| (mark <<< 8) = mark <<< 8 + ob := by
+    rw [Nat.or_comm]; exact (Nat.shiftLeft_add_eq_or_of_lt (by simpa using h1) _).symm
+  have hlt : mark <<< 8 + ob < 2 ^ 40 := by rw [Nat.shiftLeft_eq]; omega
+  rw [e1, Nat.or_comm, ← Nat.shiftLeft_add_eq_or_of_lt hlt, Nat.shiftLeft_eq, Nat.shiftLeft_eq]
+  omega
+
+theorem unpack_pack (ob mark : Nat) (must : Bool) (h1 : ob < 256) (h2 : mark < 2 ^ 32) :
+    unpack (pack ob mark must).toNat = ⟨ob, mark, must⟩ := by
+  unfold pack unpack
+  have hto : ∀ n : Nat, (Int.ofNat n).toNat = n := fun n => rfl
+  simp only [hto, pack_arith ob mark must h1 h2]
+  have a1 : ∀ n : Nat, n &&& 0xff = n % 256 := fun n => Nat.and_two_pow_sub_one_eq_mod n 8
+  have a2 : ∀ n : Nat, n &&& 1 = n % 2 := fun n => Nat.and_two_pow_sub_one_eq_mod n 1
+  simp only [a1, a2, Nat.shiftRight_eq_div_pow]
+  cases must <;> simp [bpfBool] <;> omega
+
+/-! ## provenance of a hit, decidability, field agreement -/
+
+theorem scanAux_some_mem {κ : Type} (ev : κ → Bool) : ∀ (es : List (Entry κ Out)) (g b mu : Bool) (o : Out) (m : Bool),
+    scanAux ev es g b mu = some (o, m) → ∃ e ∈ es, e.tail = .final o := by
+  intro es
+  induction es with
+  | nil => intro g b mu o m h; simp [scanAux] at h
+  | cons e es ih =>
+    intro g b mu o m h
+    unfold scanAux at h
+    generalize (if (b || g) = true then g else ev e.cond) = g' at h
+    have lift : (∃ e' ∈ es, e'.tail = .final o) → ∃ e' ∈ e :: es, e'.tail = .final o := by
+      rintro ⟨e', h1, h2⟩; exact ⟨e', List.mem_cons_of_mem _ h1, h2⟩
+    cases ht : e.tail with
+    | or => simp only [ht] at h; exact lift (ih _ _ _ _ _ h)
+    | and => simp only [ht] at h; exact lift (ih _ _ _ _ _ h)
+    | mustRules =>
+      simp only [ht] at h
+      by_cases hc : (b || (g' == e.neg)) = true
+      · simp only [hc, if_true] at h; exact lift (ih _ _ _ _ _ h)
+      · simp only [hc, Bool.false_eq_true, if_false] at h; exact lift (ih _ _ _ _ _ h)
+    | final o' =>
+      simp only [ht] at h
+      by_cases hc : (b || (g' == e.neg)) = true
+      · simp only [hc, if_true] at h; exact lift (ih _ _ _ _ _ h)
+      · simp only [hc, Bool.false_eq_true, if_false, Option.some.injEq, Prod.mk.injEq] at h
+        exact ⟨e, List.mem_cons_self, by rw [ht, h.1]⟩
+
+theorem mem_toEntriesFrom : ∀ (ks : List KEntry) (i : Nat) (e : Entry (Nat × KCond) Out),
+    e ∈ toEntriesFrom i ks → ∃ k ∈ ks, e.tail = tailOf k := by
+  intro ks
+  induction ks with
+  | nil => intro i e h; simp [toEntriesFrom] at h
+  | cons k ks ih =>
+    intro i e h
+    simp only [toEntriesFrom, List.mem_cons] at h
+    rcases h with rfl | h
+    · exact ⟨k, List.mem_cons_self, rfl⟩
+    · obtain ⟨k', h1, h2⟩ := ih _ _ h; exact ⟨k', List.mem_cons_of_mem _ h1, h2⟩
+
+/-- a userspace hit returns the outbound / mark of one of the match sets -/
+theorem matchU_some_bounds (kp : List KEntry) (tries : List (List Prefix)) (ubm : List Nat) (pk : PktK) (o : Out)
+    (hK : ∀ k ∈ kp, k.outbound < 256 ∧ k.mark < 2 ^ 32) (h : matchU kp tries ubm pk = some o) :
+    o.outbound < 256 ∧ o.mark < 2 ^ 32 := by
+  unfold matchU at h
+  cases hs : scanAux (evalU tries ubm pk) (toEntriesFrom 0 kp) false false false with
+  | none => rw [hs] at h; simp at h
+  | some x =>
+    obtain ⟨o', m⟩ := x
+    rw [hs] at h
+    simp only [Option.map_some, Option.some.injEq] at h
+    obtain ⟨e, he, het⟩ := scanAux_some_mem _ _ _ _ _ _ _ hs
+    obtain ⟨k, hk, hkt⟩ := mem_toEntriesFrom _ _ _ he
+    have := tailOf_final k o' (by rw [← hkt, het])
+    subst this; subst h
+    exact hK k hk
+
+instance (n : Nat) (c : KCond) : Decidable (KCond.WF n c) := by
+  cases c <;> unfold KCond.WF <;> infer_instance
+
+instance (pk : PktK) (c : KCond) : Decidable (PnameOK pk c) := by unfold PnameOK; infer_instance
+
+instance (p : Prefix) : Decidable p.WF := by unfold Prefix.WF; infer_instance
+
+instance (pk : PktK) (n : Nat) (k : KEntry) : Decidable (EntryOK pk n k) :=
+  decidable_of_iff (k.cond.WF n ∧ k.outbound < 256 ∧ k.mark < 2 ^ 32 ∧ PnameOK pk k.cond)
+    ⟨fun ⟨a, b, c, d⟩ => ⟨a, b, c, d⟩, fun h => ⟨h.cond, h.ob, h.mark, h.pname⟩⟩
+
+theorem Installed.with_domain {m : KMaps} {start : Nat} {kp : List KEntry} {tries : List (List Prefix)}
+    (h : Installed m start kp tries) (dom : List (Nat × List Nat)) : Installed { m with domain := dom } start kp tries :=
+  ⟨h.len, h.bound, h.rules, h.lpm⟩
+
+/-- The kernel's field readers, applied to the image the Go encoders write on a host of byte order
+`e`, return what the builder meant. -/
+def FieldsAgree (e : Endian) (k : KEntry) : Prop :=
+  msType (encodeGo e k) = k.cond.mtype ∧ msNot (encodeGo e k) = bpfBool k.not ∧
+  msOutbound (encodeGo e k) = k.outbound ∧ msMust (encodeGo e k) = bpfBool k.must ∧
+  msMark e (encodeGo e k) = k.mark ∧
+  match k.cond with
+  | .ipSet i => msIndex e (encodeGo e k) = i
+  | .srcIpSet i => msIndex e (encodeGo e k) = i
+  | .macSet i => msIndex e (encodeGo e k) = i
+  | .port lo hi => msPortStart e (encodeGo e k) = lo ∧ msPortEnd e (encodeGo e k) = hi
+  | .srcPort lo hi => msPortStart e (encodeGo e k) = lo ∧ msPortEnd e (encodeGo e k) = hi
+  | .l4Proto mk => msEnum32 e (encodeGo e k) % 256 = mk
+  | .ipVersion mk => msEnum32 e (encodeGo e k) % 256 = mk
+  | .processName bs => msPname (encodeGo e k) = bs
+  | .dscp v => msDscp (encodeGo e k) = v
+  | .domainSet => True
+  | .fallback => True
+
+instance (e : Endian) (k : KEntry) : Decidable (FieldsAgree e k) := by
+  unfold FieldsAgree; cases k.cond <;> infer_instance
+
+theorem fieldsAgree_little (k : KEntry) (hc : k.cond.WF (2 ^ 32)) (hob : k.outbound < 256) (hmk : k.mark < 2 ^ 32) :
+    FieldsAgree .little k := by
+  obtain ⟨cond, nt, ob, must, mark⟩ := k
+  refine ⟨msType_enc _ _, msNot_enc _ _, msOutbound_enc _ _ hob, msMust_enc _ _, msMark_enc_little _ hmk, ?_⟩
+  cases cond <;> simp only [KCond.WF] at hc <;> simp only
+  case ipSet i => unfold msIndex; rw [rd32_head]; exact rd32_wr32le _ hc _
+  case srcIpSet i => unfold msIndex; rw [rd32_head]; exact rd32_wr32le _ hc _
+  case macSet i => unfold msIndex; rw [rd32_head]; exact rd32_wr32le _ hc _
+  case port lo hi =>
+    constructor
+    · unfold msPortStart; rw [rd16_head _ _ _ _ (by decide)]; simp [rd16, KCond.value, wr16le, byteAt]; omega
+    · unfold msPortEnd; rw [rd16_head _ _ _ _ (by decide)]; simp [rd16, KCond.value, wr16le, byteAt]; omega
+  case srcPort lo hi =>
+    constructor
+    · unfold msPortStart; rw [rd16_head _ _ _ _ (by decide)]; simp [rd16, KCond.value, wr16le, byteAt]; omega
+    · unfold msPortEnd; rw [rd16_head _ _ _ _ (by decide)]; simp [rd16, KCond.value, wr16le, byteAt]; omega
+  case l4Proto mk => unfold msEnum32; rw [rd32_head]; simp [rd32, KCond.value, zeros, byteAt]; omega
+  case ipVersion mk => unfold msEnum32; rw [rd32_head]; simp [rd32, KCond.value, zeros, byteAt]; omega
+  case processName bs =>
+    rw [msPname_enc]; simp only [KCond.value]; rw [pad16_of_length bs hc]; exact range16_map_byteAt bs hc
+  case dscp v => unfold msDscp; rw [enc_head _ _ _ (by decide)]; simp [KCond.value, byteAt]; omega
 
 end DaeVerif.C02
